@@ -26,14 +26,17 @@ BATCH_LINE_MAX = 1000      # batch btcdeb reads the script with fgets(buf, 1024)
 # the tf table as read from functions.cpp (ENABLE_DANGEROUS off) -> inline name understood by Value::do_exec (None: no inline form)
 TABLE = {
     "addr-to-scriptpubkey": "addr_to_spk", "add": "add", "bech32-decode": "bech32dec", "bech32-encode": "bech32enc",
-    "bech32m-encode": None, "base58chk-decode": "base58chkdec", "base58chk-encode": "base58chkenc",
+    "bech32m-encode": "bech32menc", "base58chk-decode": "base58chkdec", "base58chk-encode": "base58chkenc",
     "combine-pubkeys": "combine_pubkeys", "echo": "echo", "hash160": "hash160", "hash256": "hash256", "hex": "hex",
-    "int": "int", "len": None, "jacobi-symbol": "jacobi", "prefix-compact-size": "prefix_compact_size",
+    "int": "int", "len": "len", "jacobi-symbol": "jacobi", "prefix-compact-size": "prefix_compact_size",
     "pubkey-to-xpubkey": "pubkey_to_xpubkey", "reverse": "reverse", "ripemd160": "ripemd160", "sha256": "sha256",
     "scriptpubkey-to-addr": "spk_to_addr", "sub": "sub", "tagged-hash": "tagged_hash",
     "taproot-tweak-pubkey": "taproot_tweak_pubkey", "tweak-pubkey": "tweak_pubkey", "verify-sig": "verify_sig",
-    "verify-sig-compact": None,
+    "verify-sig-compact": "verify_sig_compact",
 }
+# the inline names `tf -h` prints ("The inline operators have slightly different names; they are called: ...") where they differ from TABLE
+ADVERTISED = {"bech32-decode": "b32d", "bech32-encode": "b32e", "bech32m-encode": "b32me", "base58chk-decode": "b58cd", "base58chk-encode": "b58ce",
+              "jacobi-symbol": "jacobi_sym"}
 CAN_REJECT = {"addr-to-scriptpubkey", "add", "bech32-decode", "base58chk-decode", "combine-pubkeys", "jacobi-symbol",
               "pubkey-to-xpubkey", "scriptpubkey-to-addr", "sub", "tagged-hash", "taproot-tweak-pubkey", "tweak-pubkey",
               "verify-sig", "verify-sig-compact"}
@@ -71,6 +74,8 @@ def gen_cases(tier):
 
     def add(tf, argclass, args, expect, forms=("cmd", "inl")):
         forms = [f for f in forms if not (f == "inl" and TABLE[tf] is None)]
+        if "inl" in forms and tf in ADVERTISED:
+            forms.append("inl2")       # the same inline call under the name the tool's own help advertises
         C.append((tf, argclass, list(args), expect, tuple(forms)))
 
     Ls = list(range(0, 301)) + [520] if thorough else list(range(0, 141)) + [252, 253, 254, 255, 256, 520]
@@ -97,8 +102,7 @@ def gen_cases(tier):
         if L <= 300:
             s = R.b58check_encode(b)
             if R.classify(s)[0] == "string":
-                add("base58chk-decode", "roundtrip" if L <= 200 else "payload-over-200-bytes", [s],
-                    ("data", b) if L <= 200 else ("limit", "payload longer than the max_ret_len=200 the tool passes to DecodeBase58Check"))
+                add("base58chk-decode", "roundtrip" if L <= 200 else "payload-over-200-bytes", [s], ("data", b))   # what the tool's encoder accepts, its decoder gives back
             for nm, const in (("bech32", R.BECH32_CONST), ("bech32m", R.BECH32M_CONST)):
                 s = R.bech32_encode(HRP, [1] + R.convertbits(b, 8, 5, True), const)
                 d = R.bech32_decode(s)
@@ -264,6 +268,18 @@ def gen_cases(tier):
     for k in (1, 3, 5, 7, 9, 11, 13, 15, 21, 25, 27, 35, 45, 63, 105, 255, 257, 1155, 65537, 15015):
         for n in list(range(0, min(2 * k + 1, 48))) + [k * k + 2, (1 << 255) + 12345, R.P]:
             add("jacobi-symbol", "mod-small-odd-k", [hx(le32(n)), hx(le32(k))], ("int", R.jacobi_by_definition(n, k)))
+    # moduli on both sides of the machine-word boundaries 2^31, 2^32, 2^63, 2^64, 2^127, 2^128 (the nearest primes below and above, and three
+    # times the prime below): native-integer fast paths and signed intermediates go wrong exactly there
+    for e in (31, 32, 63, 64, 127, 128):
+        lo = (1 << e) - 1
+        while not R._is_prime(lo):
+            lo -= 2
+        hi = (1 << e) + 1
+        while not R._is_prime(hi):
+            hi += 2
+        for k in (lo, hi, 3 * lo):
+            for n in list(range(0, 12)) + [k - 1, k - 2, (k - 1) // 2, k + 2, (1 << (e - 1)) + 3, (1 << e) - 3, (1 << 255) + 12345]:
+                add("jacobi-symbol", "mod-word-boundary-k", [hx(le32(n)), hx(le32(k))], ("int", R.jacobi_by_definition(n, k)))
     add("jacobi-symbol", "n-not-32-bytes", [hx(filler(0, 31))], ("reject",))
     add("jacobi-symbol", "n-not-32-bytes", [hx(filler(0, 33))], ("reject",))
     add("jacobi-symbol", "k-not-32-bytes", [hx(le32(5)), hx(filler(0, 31))], ("reject",))
@@ -271,12 +287,14 @@ def gen_cases(tier):
     tags = ["TapLeaf", "TapBranch", "TapTweak", "BIP0340/challenge", "x"] if thorough else ["TapLeaf", "BIP0340/challenge"]
     for tag in tags:
         for L, k, b in byte_args:
-            if L >= 5 and k in ((0, 1) if thorough else (0,)):
+            if L >= 2 and k in ((0, 1) if thorough else (0,)):
                 add("tagged-hash", "tag+msg", [tag, hx(b)], ("data", R.tagged_hash(tag.encode(), b)))
+        # the empty message and every one-byte message (0x01..0x10 and 0x81 serialise as OP_1..OP_16 / OP_1NEGATE, the empty one as OP_0)
+        for b in [b""] + [bytes([x]) for x in range(256)]:
+            add("tagged-hash", "tag+tiny-msg", [tag, hx(b)], ("data", R.tagged_hash(tag.encode(), b)))
         m1, m2 = R.sha256(b"left"), R.sha256(b"right")
         add("tagged-hash", "tag+msg+msg", [tag, hx(m1), hx(m2)], ("data", R.tagged_hash(tag.encode(), m1 + m2)))
         add("tagged-hash", "tag-only", [tag], ("reject",))
-        add("tagged-hash", "empty-message", [tag, "0x"], ("convention", "an empty message serialises as OP_0, which the argument extractor refuses"))
     # ---- secp256k1 transforms
     ds = [1, 2, 3, 0x1111111111111111111111111111111111111111111111111111111111111111, R.N - 1, int.from_bytes(R.sha256(b"d5"), "big") % R.N,
           int.from_bytes(R.sha256(b"d6"), "big") % R.N, (R.N - 1) // 2]
@@ -394,9 +412,9 @@ def run_cmd(tf, args):
     return ("ran", None, lines, _errlines(err), rep)
 
 
-def run_inl(tf, args):
+def run_inl(tf, args, advertised=False):
     a = args[0] if len(args) == 1 else "[" + " ".join(args) + "]"
-    rc, out, err = _run([os.path.join(BDIR, "btcc"), "%s(%s)" % (TABLE[tf], a)])
+    rc, out, err = _run([os.path.join(BDIR, "btcc"), "%s(%s)" % (ADVERTISED[tf] if advertised else TABLE[tf], a)])
     if rc is None:
         return ("timeout", None, [], [], "")
     if rc < 0:
@@ -421,7 +439,7 @@ def run_op(tf, args, embedded):
 def form_applicable(tf, args, form):
     if form == "cmd":
         return len("tf %s %s" % (tf, " ".join(args))) < REPL_LINE_MAX
-    if form == "inl":
+    if form in ("inl", "inl2"):
         return TABLE[tf] is not None and sum(len(a) + 1 for a in args) + 40 < ARGV_MAX
     if form == "op":
         return tf in OPFORM and len(args) == 1 and args[0].startswith("0x") and len(args[0]) < ARGV_MAX
@@ -442,9 +460,11 @@ def evaluate(unit):
     if form == "cmd":
         st, sg, lines, errs, raw = run_cmd(tf, args)
         binary, shown = "btcdeb_tty", "tf %s %s" % (tf, sh(args))
-    elif form == "inl":
-        st, sg, lines, errs, raw = run_inl(tf, args)
-        binary, shown = "btcc", "btcc '%s(%s)'" % (TABLE[tf], sh(args) if len(args) == 1 else "[" + sh(args) + "]")
+    elif form in ("inl", "inl2"):
+        st, sg, lines, errs, raw = run_inl(tf, args, form == "inl2")
+        binary, shown = "btcc", "btcc '%s(%s)'" % (ADVERTISED[tf] if form == "inl2" else TABLE[tf], sh(args) if len(args) == 1 else "[" + sh(args) + "]")
+        if form == "inl2":
+            form = "inl"       # judged exactly as the inline form
     else:
         st, sg, lines, errs, raw = run_op(tf, args, form == "opemb")
         binary, shown = "btcdeb", ("echo '[%s %s]' | btcdeb" % (sh(args), OPFORM[tf])) if form == "opemb" else ("echo '[%s]' | btcdeb %s" % (OPFORM[tf], sh(args)))
